@@ -102,7 +102,8 @@ Proof.
     match goal with Hx : String.eqb ty _ = true |- _ => apply String.eqb_eq in Hx; auto end. }
   rewrite Hn. cbn [negb].
   destruct Hty as [-> | [-> | [-> | ->]]];
-    destruct ch as [ch|], uri as [uri|], isid as [isid|]; cbn in *; try discriminate;
+    destruct ch as [ch|], uri as [uri|], isid as [isid|];
+    try (match goal with H : _ = true |- _ => cbn in H; discriminate H end);
     destruct (String.eqb lang "") eqn:El, au, de, fo; cbn; rewrite ?Hg; cbn;
     try (apply String.eqb_eq in El; subst lang); reflexivity.
 Qed.
